@@ -430,7 +430,20 @@ func init() {
 			c.set(mkInt(int64(strings.Index(c.str(0).S, c.str(1).S))))
 			return nil, false
 		}
-		c.set(symInt("(str.indexof " + c.str(0).term() + " " + c.str(1).term() + " 0)"))
+		c.set(c.indexOf(c.str(0), c.str(1)))
+		return nil, false
+	}
+	I["strings.IndexByte"] = func(c *icall) ([]*State, bool) {
+		b, ok := c.args[1].(IntV)
+		if !ok || !b.C {
+			panic(engineErr("strings.IndexByte with a symbolic byte"))
+		}
+		sep := litStr(string([]byte{byte(b.N)}))
+		if a := c.str(0); a.K == SLit {
+			c.set(mkInt(int64(strings.IndexByte(a.S, byte(b.N)))))
+			return nil, false
+		}
+		c.set(c.indexOf(c.str(0), sep))
 		return nil, false
 	}
 	I["strings.Replace"] = func(c *icall) ([]*State, bool) {
@@ -690,6 +703,15 @@ func init() {
 }
 
 var splitMax = 4
+
+// indexOf is strings.Index as a term, tied to strings.Contains (the string abstraction keeps
+// the two apart otherwise): idx >= -1, and idx >= 0 exactly when the string contains the other.
+func (c *icall) indexOf(a, sep StrV) IntV {
+	t := "(str.indexof " + a.term() + " " + sep.term() + " 0)"
+	c.s.addPC("(>= " + t + " (- 1))")
+	c.s.addPC(tEq("(>= "+t+" 0)", strContains(a, sep)))
+	return symInt(t)
+}
 
 func intToStr(n IntV) StrV {
 	if n.C {
